@@ -141,7 +141,7 @@ def bw_const_width(ctx):
 
 
 for _L in range(0, 9):
-    group(["C15", "C04"] if _L <= 4 else ["C15"], "breit_wigner.Bprime_Gamma/L=%d" % _L,
+    group(["C15"], "breit_wigner.Bprime_Gamma/L=%d" % _L,
           ["breit_wigner:Bprime_polynomial", "breit_wigner:Bprime", "breit_wigner:Bprime_q2", "breit_wigner:Gamma", "breit_wigner:Bprime_num"], cost=1 + _L)(_mk_bprime(_L))
-    group(["C15", "C04"] if _L <= 4 else ["C15"], "breit_wigner.BWR/L=%d" % _L,
+    group(["C15"], "breit_wigner.BWR/L=%d" % _L,
           ["breit_wigner:BWR", "breit_wigner:BWR2", "breit_wigner:Gamma2"], cost=2 + _L)(_mk_bwr(_L))
